@@ -703,6 +703,13 @@ func (e *Engine) runScript(s *Submission, script []string, r res.Resource, kind 
 			}
 		case "status":
 			r.(interface{ SetResponseStatus(int) }).SetResponseStatus(402)
+		case "statusif":
+			if hr, ok := r.(interface {
+				IsHTTP() bool
+				SetResponseStatus(int)
+			}); ok && hr.IsHTTP() {
+				hr.SetResponseStatus(402)
+			}
 		case "header":
 			h := r.(interface{ ResponseHeader() http.Header }).ResponseHeader()
 			h["X-Test"] = []string{"v"}
